@@ -124,6 +124,25 @@ func (aux *Aux) updateDefaultCaller() {
 	}
 }
 
+// DefinedInLisp returns true if all the methods of the generic function were
+// defined in LISP and are therefore part of the load form. The readers and
+// writers defclass adds for a slot are implemented in go, they come with the
+// class and not with a defgeneric.
+func (aux *Aux) DefinedInLisp() bool {
+	for _, m := range aux.methods {
+		for _, c := range m.Combinations {
+			for _, caller := range []slip.Caller{c.Primary, c.Before, c.After, c.Wrap} {
+				if caller != nil {
+					if _, ok := caller.(*slip.Lambda); !ok {
+						return false
+					}
+				}
+			}
+		}
+	}
+	return true
+}
+
 // LoadForm returns a list that can be evaluated to define a generic and all
 // specialized methods for the generic.
 func (aux *Aux) LoadForm() slip.Object {
